@@ -364,7 +364,9 @@ def templates():
     for c in quick:
         add('cat-%s-%s' % (c['mod'], c['name']), 'catalogue', 'quick', cost=c['cost'] * 1.3, cmod=c['mod'], cfn=c['fn'], cparams=c['params'])
     # operations whose implementation may work on a *view* of the operand (flatten of leading / all dimensions): always in the quick tier
-    always = ('tuple-median-2x2-g01', 'tuple-median-2x2x2-g01', 'tuple-cumsum-2x2-g01', 'tuple-max-2x2x2-g12')
+    always = ('tuple-median-2x2-g01', 'tuple-median-2x2x2-g01', 'tuple-cumsum-2x2-g01', 'tuple-max-2x2x2-g12',
+              # labels of every kind under operations that compute new labels from the old ones
+              'diff-centered-False-n1-m3-f', 'diff-centered-True-n1-m3-f', 'diff-centered-False-n1-m3-i', 'diff-forward-False-n1-m3-f')
     for c in cat.select(max_per_fn=40, max_cost=8.0):
         if (c['mod'], c['name']) not in qn:
             add('cat-%s-%s' % (c['mod'], c['name']), 'catalogue', 'quick' if c['name'] in always else 'thorough', cost=c['cost'] * 1.3, cmod=c['mod'], cfn=c['fn'], cparams=c['params'])
